@@ -81,6 +81,15 @@ def run(c, chk, alloc_failure=False):
     freecb_rule(c, chk, ex)
     include_rule(c, chk, ex)
     realloc_to_nothing(c, chk, ex)
+    if not isinstance(chk, report.SubCheck) and not alloc_failure:
+        from . import c09 as _c09, c08 as _c08, c16 as _c16
+        # R7.8: "never uses it after release": a setter that may be handed the option's own current string copies it first
+        _c09.copy_before_release(c, _c08.chk_proxy(chk, {'R9.6': 'R7.8'}), ex)
+        # R7.9: "freeing the context releases every byte": what the duplicator creates per option is what the release function frees
+        chk.rule('R7.9', 'every pointer member the schema duplicator creates is released by the release function of the option table (rule R16.1 of C16)')
+        sub = report.SubCheck(chk, 'R7.9', 'C16', only=('R16.1',))
+        _c16.run(c, sub)
+        sub.done('duplicated = released members')
 
 
 OWNER_FIELDS = {('cfg_t', 'name'), ('cfg_t', 'title'), ('cfg_t', 'filename'), ('cfg_t', 'comment'), ('cfg_t', 'opts'),
